@@ -68,9 +68,33 @@ def engine_models(pid, tier):
     return stats
 
 
+IND_PROPS = {"C04", "C05", "C06", "C10"}
+
+
+def indicator_models(pid, tier):
+    """MC_Indicators: the engine driven by the layer functions F equals the definitional columns
+    (Defs.tla) on every stream of the alphabet; structural relations hold on every state"""
+    q = tier == "quick"
+    cfg = "MC_Indicators_quick.cfg" if q else "MC_Indicators_deep.cfg"
+    consts = ("all streams of length <= %d over 5 candle symbols (up, down, gap up, gap down/zero volume, flat); "
+              "26 indicator configurations with periods 2-4; exact rationals, no rounding" % (4 if q else 6))
+    stats = [mc.run_model("MC_Indicators", "MC_Indicators", cfg, consts, timeout=3400)]
+    if pid == "C06":
+        stats.append(mc.run_model("MC_Indicators+OBV_volume_rule (must fail)", "MC_Indicators",
+                                  "MC_Indicators_DevOBV.cfg", "length 4, Dev={OBV_volume_rule}",
+                                  expect_violation="DefsAgree"))
+    if pid == "C05":
+        stats.append(mc.run_model("MC_Indicators+lookback_wraps (must fail)", "MC_Indicators",
+                                  "MC_Indicators_DevWrap.cfg", "length 4, Dev={lookback_wraps}",
+                                  expect_violation="DefsAgree"))
+    return stats
+
+
 def run(pid, tier, seed, rng, t0):
     scs = families.scenarios(pid, tier, rng)
     mc_stats, extra, rc_replay = [], {}, 0
+    if pid in IND_PROPS:
+        mc_stats = indicator_models(pid, tier)
     if pid in ENGINE_PROPS:
         mc_stats = engine_models(pid, tier)
     if pid in MGR_PROPS:
